@@ -11,6 +11,14 @@ register("C05",
                    "GtModel.C05.history_independent_docs"],
          streams=["history", "script"],
          assumptions=["oracles as in C04 (every make_distinct oracle, admissible solver answers)",
+                      "ONE FIXED SOLVER ANSWER FOR ALL HISTORIES: history_independent_docs / history_independent(_L2) use the same "
+                      "orc.assign in `run q1 ... ops`, `finish q1` and `finish q2`.  In the code scipy is handed the edges' "
+                      "bounds().upper_bound at the moment the matching is forced, i.e. the solver's answer is a function of the "
+                      "edge bounds at solve time, which a different history or quiet setting could in principle change; the model "
+                      "takes the answer from the recorded run and the theorems do NOT exclude 'history A leads the solver to "
+                      "matching X, history B to a different full-size matching Y of different cost'.  Checked per run only: "
+                      "the history stream records the solver calls of the quiet and the non-quiet run and the monitor compares "
+                      "final cost and script of both",
                       "the L3->L2 link scriptG(mkEdit ...) = toD(edits ...) is PROVED for every pair of trees "
                       "(mkEdit_refines_L2)"],
          trusted=["harness/lazyinst.py"],
